@@ -316,8 +316,14 @@ def run(ctx):
     for p in ps:
         if p.kind != "ret" or not U.is_ok(p.ret):
             continue
-        pres = [D.show(a[1]) for a, t in p.conds if a[0] == "bool" and t and "starts_with(s, " in D.show(a[1])]
-        pre = pres[-1].split("starts_with(s, ")[1][:-1].strip("'") if pres else ""
+        # the prefix test that holds on this path: `s.starts_with(P)` or `s.strip_prefix(P)` being Some
+        pres = []
+        for a, t in p.conds:
+            m_ = re.fullmatch(r"str::starts_with\(s, '([^']*)'\)", D.show_atom(a)) if a[0] == "bool" else \
+                re.fullmatch(r"str::strip_prefix\(s, '([^']*)'\) is Some", D.show_atom(a))
+            if m_ and t:
+                pres.append(m_.group(1))
+        pre = pres[-1] if pres else ""
         pre_seen = [x for x in pres]
         op = D.show(field(U.payload(p.ret), "prefix"))
         if len(pres) <= 1:
